@@ -821,6 +821,18 @@ def parse_pragma(p, toks):
     return st
 
 
+QUERY_PRAGMAS = {
+    'foreign_keys', 'journal_mode', 'user_version', 'schema_version', 'page_size', 'encoding', 'integrity_check',
+    'quick_check', 'foreign_key_check', 'database_list', 'table_list', 'collation_list', 'compile_options',
+    'function_list', 'module_list', 'pragma_list', 'cache_size', 'synchronous', 'locking_mode', 'auto_vacuum',
+    'recursive_triggers', 'application_id', 'data_version', 'freelist_count', 'page_count', 'busy_timeout',
+    'temp_store', 'secure_delete', 'wal_autocheckpoint', 'mmap_size', 'max_page_count', 'journal_size_limit',
+    'legacy_alter_table', 'defer_foreign_keys', 'ignore_check_constraints', 'query_only', 'read_uncommitted',
+    'reverse_unordered_selects', 'trusted_schema', 'cell_size_check', 'checkpoint_fullfsync', 'fullfsync',
+    'case_sensitive_like', 'automatic_index', 'analysis_limit', 'hard_heap_limit', 'soft_heap_limit', 'threads',
+    'table_info', 'table_xinfo', 'index_list', 'index_info', 'index_xinfo', 'foreign_key_list', 'stats'}
+
+
 def pragma_is_read(st):
     """A pragma is a read iff it is one of the schema-inspection pragmas used
     with an argument in call form, or a plain query of a setting (no '=')."""
@@ -828,7 +840,10 @@ def pragma_is_read(st):
     if n in READ_PRAGMAS and not st.extra.get('assign'):
         return True
     if not st.extra.get('assign') and st.extra.get('arg') is None:
-        return True   # PRAGMA foo;  queries the setting
+        # PRAGMA foo;  queries a setting - unless foo is one of the pragmas that act without an argument
+        # (optimize runs ANALYZE, wal_checkpoint rewrites the database file, incremental_vacuum frees pages);
+        # a name that is neither a known setting nor a known action counts as an action
+        return n in QUERY_PRAGMAS
     return False
 
 
